@@ -96,13 +96,21 @@ namespace GeographicLib {
     Xn.y() = fabs(Xn.y()); Yn.y() = fabs(Yn.y());
     real k2 = -base::_e12;
     bool flip = base::_f < 0;
+    // The angles before the swap
+    real x = Xn.radians(), y = Yn.radians();
     // Switch prolate to oblate; we then can use the formulas for k2 < 0
     if (flip) {
       swap(Xn.x(), Xn.y());
       swap(Yn.x(), Yn.y());
       k2 = base::_e2;
     }
-    real x = Xn.radians(), y = Yn.radians(), d = y - x,
+    // The swap replaces x by pi/2 - x.  Express the difference of the swapped
+    // angles and Dsin of the swapped angles in terms of the original angles;
+    // this avoids the loss of accuracy when x and y are close to the equator
+    // (the swapped angles are then close to pi/2).
+    real d = flip ? x - y : y - x,
+      Ds = flip ? sin((x + y) / 2) * (d != 0 ? sin(d / 2) / (d / 2) : 1) :
+      Dsin(x, y),
       sx = Xn.y(), sy = Yn.y(), cx = Xn.x(), cy = Yn.x();
     // See DLMF: Eqs (19.11.2) and (19.11.4) letting
     // theta -> x, phi -> -y, psi -> z
@@ -115,7 +123,7 @@ namespace GeographicLib {
     //          = t = d * Dt
     // Delta(x) = sqrt(1 - k2 * sin(x)^2)
     // sin(z) = 2*t/(1+t^2); cos(z) = (1-t^2)/(1+t^2)
-    real Dt = Dsin(x, y) * (sx + sy) /
+    real Dt = Ds * (sx + sy) /
       ((cx + cy) * (sx * sqrt(1 - k2 * sy*sy) + sy * sqrt(1 - k2 * sx*sx))),
       t = d * Dt, Dsz = 2 * Dt / (1 + t*t),
       sz = d * Dsz, cz = (1 - t) * (1 + t) / (1 + t*t),
